@@ -357,7 +357,12 @@ func floatGFormat(f px.Format, value float64) string {
 		} else {
 			missing = prc - totLen
 			if missing == 0 {
-				// Impossible to add a fraction part. Force scientific notation
+				// Impossible to add a fraction part. Force scientific notation with the same number of
+				// significant digits: the precision of %e counts the digits after the decimal point
+				if sf, ok := f.ReplaceFormatChar(sc).(*format); ok {
+					sf.precision = prc - 1
+					return fmt.Sprintf(goFormat(sf), value)
+				}
 				return fmt.Sprintf(goFormat(f.ReplaceFormatChar(sc)), value)
 			}
 		}
